@@ -22,14 +22,21 @@ theorem nodeOf_clean (p : Path) : nodeOf (clean p) = nodeOf p := by
 
 def grantsValid (grants : List (Path × List Nat)) : Prop := ∀ g ∈ grants, g.2.all validPriv = true
 
-theorem grantAt_mem (grants : List (Path × List Nat)) (n : Node) (ps : List Nat) (h : grantAt grants n = some ps) :
-    ∃ g ∈ grants, g.2 = ps := by
+theorem grantAt_valid (grants : List (Path × List Nat)) (hv : grantsValid grants) (n : Node) (ps : List Nat)
+    (h : grantAt grants n = some ps) : ps.all validPriv = true := by
   unfold grantAt at h
+  simp only at h
   split at h
-  · rename_i g hg
-    injection h with h
-    exact ⟨g, by simpa using List.mem_of_find?_eq_some hg, h⟩
   · cases h
+  · injection h with h
+    subst h
+    rw [List.all_eq_true]
+    intro p hp
+    rw [List.mem_flatMap] at hp
+    obtain ⟨g, hg, hpg⟩ := hp
+    have := hv g (List.mem_filter.mp hg).1
+    rw [List.all_eq_true] at this
+    exact this p hpg
 
 theorem nearestGrant_mem (grants : List (Path × List Nat)) (n a : Node) (ps : List Nat)
     (h : nearestGrant grants n = some (a, ps)) : a ∈ ancestors n ∧ grantAt grants a = some ps := by
@@ -43,43 +50,16 @@ theorem nearestGrant_mem (grants : List (Path × List Nat)) (n a : Node) (ps : L
     exact ⟨hx, hg⟩
   · cases hf
 
-/-- Upper bound ("only if"): an allowed action is one the statement permits. -/
-theorem allow_mayAllow (a : Account) (res : Path) (want : Nat) (hv : grantsValid a.grants) (hw : validPriv want = true)
-    (h : authorizeAction a.user res want = .allow) : mayAllow a res want = true := by
-  rw [authorizeAction_eq_nearest] at h
-  unfold nearestDecision at h
-  unfold mayAllow
-  by_cases h0 : want = noPriv ∨ a.admin = true
-  · rcases h0 with h0 | h0
-    · simp [h0, pNone_eq]
-    · simp [h0]
-  · rw [if_neg h0] at h
-    cases hn : nodeOf res with
-    | none => rw [hn] at h; cases h
-    | some n =>
-      rw [hn] at h
-      simp only at h ⊢
-      cases hg : nearestGrant a.grants n with
-      | none => rw [hg] at h; cases h
-      | some x =>
-        obtain ⟨anc, ps⟩ := x
-        rw [hg] at h
-        simp only at h ⊢
-        obtain ⟨_, hga⟩ := nearestGrant_mem _ _ _ _ hg
-        obtain ⟨g, hgm, rfl⟩ := grantAt_mem _ _ _ hga
-        split at h
-        · rename_i hauth
-          simp [authorized_listed g.2 want (hv g hgm) hw hauth]
-        · cases h
-
-/-- Lower bound: what the statement surely grants is allowed. -/
-theorem mustAllow_allow (a : Account) (res : Path) (want : Nat) (hw : validPriv want = true)
-    (h : mustAllow a res want = true) : authorizeAction a.user res want = .allow := by
+/-- **The code's decision IS the reference decision** (on tables and privileges from the five declared ones). -/
+theorem allow_iff_mayAllow (a : Account) (res : Path) (want : Nat) (hv : grantsValid a.grants) (hw : validPriv want = true) :
+    authorizeAction a.user res want = .allow ↔ mayAllow a res want = true := by
   rw [authorizeAction_eq_nearest]
-  unfold nearestDecision
-  unfold mustAllow at h
+  unfold nearestDecision mayAllow
   by_cases h0 : want = noPriv ∨ a.admin = true
   · rw [if_pos h0]
+    rcases h0 with h0 | h0
+    · simp [h0, pNone_eq]
+    · simp [h0]
   · rw [if_neg h0]
     have h1 : (want == pNone) = false := by
       rw [pNone_eq]; simp; exact fun e => h0 (Or.inl e)
@@ -87,19 +67,88 @@ theorem mustAllow_allow (a : Account) (res : Path) (want : Nat) (hw : validPriv 
       cases ha : a.admin with
       | true => exact absurd (Or.inr ha) h0
       | false => rfl
-    simp only [h1, h2, Bool.false_or] at h
+    simp only [h1, h2, Bool.false_or]
     cases hn : nodeOf res with
-    | none => rw [hn] at h; cases h
+    | none => simp
     | some n =>
-      rw [hn] at h
-      simp only at h ⊢
+      simp only
       cases hg : nearestGrant a.grants n with
-      | none => rw [hg] at h; cases h
+      | none => simp
       | some x =>
         obtain ⟨anc, ps⟩ := x
-        rw [hg] at h
-        simp only at h ⊢
-        rw [if_pos (surely_authorized ps want hw h)]
+        simp only
+        obtain ⟨_, hga⟩ := nearestGrant_mem _ _ _ _ hg
+        rw [authorized_eq_listed ps want (grantAt_valid _ hv _ _ hga) hw]
+        cases listed ps want <;> simp
+
+theorem allow_mayAllow (a : Account) (res : Path) (want : Nat) (hv : grantsValid a.grants) (hw : validPriv want = true)
+    (h : authorizeAction a.user res want = .allow) : mayAllow a res want = true :=
+  (allow_iff_mayAllow a res want hv hw).mp h
+
+/-! ### the order in which `NewUser` visits the Go map does not matter -/
+
+theorem orMask_perm (a b : List Nat) (h : a.Perm b) : orMask a = orMask b := by
+  unfold orMask
+  apply List.Perm.foldl_eq' h
+  intro x _ y _ z
+  rw [Nat.or_assoc, Nat.or_comm x y, ← Nat.or_assoc]
+
+theorem grantAt_perm (g₁ g₂ : List (Path × List Nat)) (h : g₁.Perm g₂) (n : Node) :
+    (grantAt g₁ n).map orMask = (grantAt g₂ n).map orMask := by
+  unfold grantAt
+  simp only
+  have hf := List.Perm.filter (fun g => decide (nodeOf g.1 = some n)) h
+  rw [List.Perm.isEmpty_eq hf]
+  split
+  · rfl
+  · simp only [Option.map_some]
+    rw [orMask_perm _ _ (List.Perm.flatMap_right (fun g => g.2) hf)]
+
+theorem lookup_perm (admin : Bool) (g₁ g₂ : List (Path × List Nat)) (h : g₁.Perm g₂) (a : Node) (ha : NormalSegs a) :
+    lookup (newUser admin g₁).privs ('/' :: join a) = lookup (newUser admin g₂).privs ('/' :: join a) := by
+  rw [lookup_newUser admin g₁ a ha, lookup_newUser admin g₂ a ha, grantAt_perm g₁ g₂ h a]
+
+theorem walkSpec_perm (admin : Bool) (g₁ g₂ : List (Path × List Nat)) (h : g₁.Perm g₂) (want : Nat) (n : Node)
+    (hn : NormalSegs n) :
+    walkSpec (newUser admin g₁).privs want n = walkSpec (newUser admin g₂).privs want n := by
+  unfold walkSpec
+  have : ∀ (l : List Node), (∀ a ∈ l, NormalSegs a) →
+      l.findSome? (fun a => lookup (newUser admin g₁).privs ('/' :: join a)) =
+      l.findSome? (fun a => lookup (newUser admin g₂).privs ('/' :: join a)) := by
+    intro l hl
+    induction l with
+    | nil => rfl
+    | cons a as ih =>
+      simp only [List.findSome?_cons]
+      rw [lookup_perm admin g₁ g₂ h a (hl a (by simp)), ih (fun x hx => hl x (by simp [hx]))]
+  rw [this _ (ancestors_normal n hn)]
+
+theorem privs_isEmpty_perm (admin : Bool) (g₁ g₂ : List (Path × List Nat)) (h : g₁.Perm g₂) :
+    ((newUser admin g₁).privs.length > 0) ↔ ((newUser admin g₂).privs.length > 0) := by
+  have key : ∀ (g : List (Path × List Nat)), ((newUser admin g).privs.length > 0) ↔ g ≠ [] := by
+    intro g
+    unfold newUser
+    simp only
+    have hm : ∀ (m : List (Path × Nat)) k v, (mapOr m k v).length > 0 := by
+      intro m k v
+      cases m with
+      | nil => simp [mapOr]
+      | cons e rest => unfold mapOr; split <;> simp
+    have hfold : ∀ (l : List (Path × List Nat)) (m : List (Path × Nat)), m.length > 0 →
+        (l.foldl (fun m g => mapOr m (clean g.1) (orMask g.2)) m).length > 0 := by
+      intro l
+      induction l with
+      | nil => intro m hm'; simpa using hm'
+      | cons x xs ih => intro m _; simp only [List.foldl_cons]; exact ih _ (hm _ _ _)
+    cases g with
+    | nil => simp
+    | cons x xs =>
+      simp only [List.foldl_cons, ne_eq, reduceCtorEq, not_false_eq_true, iff_true]
+      exact hfold xs _ (hm _ _ _)
+  rw [key, key]
+  constructor
+  · intro h1 e; subst e; exact h1 (List.Perm.eq_nil h)
+  · intro h1 e; subst e; exact h1 (List.Perm.eq_nil h.symm)
 
 theorem mayAllow_congr (a : Account) (r1 r2 : Path) (want : Nat) (h : nodeOf r1 = nodeOf r2) :
     mayAllow a r1 want = mayAllow a r2 want := by
